@@ -75,6 +75,11 @@ func c10(env *core.Env) {
 	if c.Bool("revocations", 1, 4) {
 		h.revokeRate = c.Range("revocations.rate", 2, 6)
 	}
+	if c.Bool("same-token-text", 1, 5) {
+		// one token per client rather than per request: whatever is asked for, the
+		// answer is the same text for as long as that token is good
+		h.sameToken, h.grant, h.lifetimes = true, "all", []int{300}
+	}
 	w := newAuthWorld(env, []*regHost{h})
 	maxLat := c.Range("latency.max", 0, 4)
 	w.latency = func() time.Duration { return time.Duration(c.Int("latency", maxLat+1)) * time.Second }
@@ -131,9 +136,15 @@ func c10(env *core.Env) {
 				var candidates []*issuedToken
 				req := parseNaive(p.required)
 				for _, it := range w.issued {
-					s := spans[it.callID]
-					if it.host == h.name && s != nil && s.end != 0 && s.end < sp.start &&
-						it.requested.contains(req) && it.granted.contains(req) && !it.revoked && !it.refused &&
+					// (what the transport holds is one entry per token response, under the scope
+					// that response was asked for)
+					acquired := false
+					for _, a := range it.acquisitions {
+						if s := spans[a.callID]; s != nil && s.end != 0 && s.end < sp.start && a.requested.contains(req) && startTime.Add(30*time.Second).Before(a.expires) {
+							acquired = true
+						}
+					}
+					if it.host == h.name && acquired && it.granted.contains(req) && !it.revoked && !it.refused &&
 						startTime.Add(30*time.Second).Before(it.issuedAt.Add(it.lifetime)) {
 						candidates = append(candidates, it)
 					}
